@@ -24,10 +24,11 @@ Inductive path :=
 | PSGet.       (* static.a.get('b') -> the handle, nothing is loaded *)
 
 Inductive op :=
-| OAccess (h : Z) (p : path)
+| OAccess (h : Z) (p : path) (fail : bool)
+  (* fail: the harness scripted load() to raise if this access triggers a load *)
 | OClear (h : Z)
 | OCached (h : Z)
-| OSwitch (h : Z) (cc cn : bool).
+| OSwitch (h : Z) (cc cn : bool) (fail : bool).
   (* SimpleLoop.switch(h, clear_current=cc, clear_next=cn) of desper/loop.py:
      Loop.switch clears the current handle (if any) when cc, clears h when cn,
      makes h current and calls h(); SimpleLoop.switch calls h() again *)
@@ -40,7 +41,10 @@ Inductive op :=
              OCached: the value of .cached;  OClear: true;
              OSwitch: "loop.current_world is the object of the most recent
              load of h" *)
-Record obs := { o_loads : Z; o_flag : bool }.
+Record obs := { o_loads : Z; o_flag : bool; o_exc : bool }.
+(* o_loads counts load() ATTEMPTS (a load that raises is an attempt);
+   o_exc: the operation raised the scripted load error (o_flag is then true
+   by convention) *)
 
 Definition trace := list (op * obs).
 
@@ -59,13 +63,17 @@ Definition hget (s : hstates) (h : Z) : hstate :=
 Record state := { st_h : hstates; st_cur : option Z }.
 Definition st_init := {| st_h := []; st_cur := None |}.
 
-(* Handle.__call__ : returns (new handle state, serial of the returned value) *)
-Definition call (x : hstate) : hstate * option Z :=
-  if h_cached x then (x, h_cache x)
+(* Handle.__call__ : returns (new handle state, serial of the returned value,
+   whether load() raised).  `self._cache = self.load(); self._cached = True`:
+   when load raises neither field is assigned. *)
+Definition call (x : hstate) (fail : bool) : hstate * option Z * bool :=
+  if h_cached x then (x, h_cache x, false)
   else
     let n := h_loads x + 1 in            (* self.load() *)
-    let x' := {| h_cached := true; h_cache := Some n; h_loads := n |} in
-    (x', h_cache x').
+    if fail then ({| h_cached := h_cached x; h_cache := h_cache x; h_loads := n |}, None, true)
+    else
+      let x' := {| h_cached := true; h_cache := Some n; h_loads := n |} in
+      (x', h_cache x', false).
 
 (* Handle.clear *)
 Definition clear (x : hstate) : hstate :=
@@ -74,40 +82,48 @@ Definition clear (x : hstate) : hstate :=
 Definition is_latest (x : hstate) (v : option Z) : bool :=
   match v with Some n => n =? h_loads x | None => false end.
 
+Definition obs_ok (ob : obs) (x : hstate) (v : option Z) (raised : bool) : bool :=
+  (o_loads ob =? h_loads x) && Bool.eqb (o_exc ob) raised &&
+  Bool.eqb (o_flag ob) (if raised then true else is_latest x v).
+
 (* one step: the code's result compared with the observation *)
 Definition step (st : state) (o : op) (ob : obs) : option state :=
   let s := st_h st in
   match o with
-  | OAccess h p =>
+  | OAccess h p fail =>
       let x := hget s h in
       match p with
       | PCall | PItem | PSAttr | PSItem =>
-          let '(x', v) := call x in
-          if (o_loads ob =? h_loads x') && Bool.eqb (o_flag ob) (is_latest x' v)
+          let '(x', v, r) := call x fail in
+          if obs_ok ob x' v r
           then Some {| st_h := aset h x' s; st_cur := st_cur st |} else None
       | PGet | PSGet =>
-          if (o_loads ob =? h_loads x) && o_flag ob then Some st else None
+          if (o_loads ob =? h_loads x) && o_flag ob && negb (o_exc ob) then Some st else None
       end
   | OClear h =>
       let x' := clear (hget s h) in
-      if (o_loads ob =? h_loads x') && o_flag ob
+      if (o_loads ob =? h_loads x') && o_flag ob && negb (o_exc ob)
       then Some {| st_h := aset h x' s; st_cur := st_cur st |} else None
   | OCached h =>
       let x := hget s h in
-      if (o_loads ob =? h_loads x) && Bool.eqb (o_flag ob) (h_cached x)
+      if (o_loads ob =? h_loads x) && Bool.eqb (o_flag ob) (h_cached x) && negb (o_exc ob)
       then Some st else None
-  | OSwitch h cc cn =>
+  | OSwitch h cc cn fail =>
       (* if clear_current and self._current_world_handle is not None: clear *)
       let s1 := match st_cur st with
                 | Some c => if cc then aset c (clear (hget s c)) s else s
                 | None => s end in
       (* if clear_next: world_handle.clear() *)
       let s2 := if cn then aset h (clear (hget s1 h)) s1 else s1 in
+      (* self._current_world_handle = world_handle   (before the call) *)
       (* self._current_world = world_handle() ; world_handle().dispatch_enabled = True *)
-      let '(x1, _) := call (hget s2 h) in
-      let '(x2, v) := call x1 in
-      if (o_loads ob =? h_loads x2) && Bool.eqb (o_flag ob) (is_latest x2 v)
-      then Some {| st_h := aset h x2 s2; st_cur := Some h |} else None
+      let '(x1, v1, r1) := call (hget s2 h) fail in
+      if r1 then
+        if obs_ok ob x1 v1 true then Some {| st_h := aset h x1 s2; st_cur := Some h |} else None
+      else
+        let '(x2, v, r2) := call x1 false in
+        if obs_ok ob x2 v r2
+        then Some {| st_h := aset h x2 s2; st_cur := Some h |} else None
   end.
 
 Fixpoint run (s : state) (tr : trace) : option state :=
@@ -135,39 +151,54 @@ Definition loading (p : path) : bool :=
 
 Definition sclear (h : Z) (s : shandles) : shandles := aset h (fst (sget s h), false) s.
 
+(* a loading access of a handle in spec state (n, since): what must be
+   observed, and the next spec state of that handle *)
+Definition spec_access (n : Z) (since fail : bool) (ob : obs) : option (Z * bool) :=
+  if since then
+    (* already loaded since the last clear: no load, no error, same object *)
+    if (o_loads ob =? n) && o_flag ob && negb (o_exc ob) then Some (n, true) else None
+  else
+    (* the first access after a clear (or ever, or after a failed load) loads *)
+    if fail then
+      (* load() raised: the error reaches the caller, nothing is cached, the
+         next access will load again *)
+      if (o_loads ob =? n + 1) && o_flag ob && o_exc ob then Some (n + 1, false) else None
+    else
+      if (o_loads ob =? n + 1) && o_flag ob && negb (o_exc ob) then Some (n + 1, true) else None.
+
 Definition spec_step (st : sstate) (o : op) (ob : obs) : option sstate :=
   let s := sp_h st in
   match o with
-  | OAccess h p =>
+  | OAccess h p fail =>
       let '(n, since) := sget s h in
       if loading p then
-        (* at most one load between clears; the first access after a clear
-           loads; the result is the object of that one load *)
-        let n' := if since then n else n + 1 in
-        if (o_loads ob =? n') && o_flag ob
-        then Some {| sp_h := aset h (n', true) s; sp_cur := sp_cur st |} else None
+        match spec_access n since fail ob with
+        | Some y => Some {| sp_h := aset h y s; sp_cur := sp_cur st |}
+        | None => None
+        end
       else
-        if (o_loads ob =? n) && o_flag ob then Some st else None
+        if (o_loads ob =? n) && o_flag ob && negb (o_exc ob) then Some st else None
   | OClear h =>
       let '(n, _) := sget s h in
-      if (o_loads ob =? n) && o_flag ob
+      if (o_loads ob =? n) && o_flag ob && negb (o_exc ob)
       then Some {| sp_h := sclear h s; sp_cur := sp_cur st |} else None
   | OCached h =>
       (* cached tells whether the next access will NOT load *)
       let '(n, since) := sget s h in
-      if (o_loads ob =? n) && Bool.eqb (o_flag ob) since then Some st else None
-  | OSwitch h cc cn =>
+      if (o_loads ob =? n) && Bool.eqb (o_flag ob) since && negb (o_exc ob) then Some st else None
+  | OSwitch h cc cn fail =>
       (* a switch is: a clear of the handle being left (if asked and if there
          is one), a clear of the target (if asked), then an access of the
-         target, whose world becomes the current one *)
+         target, which becomes the current handle (also when its load raises) *)
       let s1 := match sp_cur st with
                 | Some c => if cc then sclear c s else s
                 | None => s end in
       let s2 := if cn then sclear h s1 else s1 in
       let '(n, since) := sget s2 h in
-      let n' := if since then n else n + 1 in
-      if (o_loads ob =? n') && o_flag ob
-      then Some {| sp_h := aset h (n', true) s2; sp_cur := Some h |} else None
+      match spec_access n since fail ob with
+      | Some y => Some {| sp_h := aset h y s2; sp_cur := Some h |}
+      | None => None
+      end
   end.
 
 Fixpoint spec_run (s : sstate) (tr : trace) : option sstate :=
